@@ -448,12 +448,28 @@ def _is_received_action(ctx, t):
             x = strip_wrap(x[1])
         else:
             break
+    if x[0] == "phi":
+        return all(_is_recv_result(ctx, y) for y in x[1])
+    return _is_recv_result(ctx, x)
+
+
+def _is_recv_result(ctx, x):
+    from mirq.anchors import CB_DEQUEUE
+    x = strip_wrap(x)
+    for _ in range(6):
+        if x[0] == "vfield" and x[2] in ("Some", "Ok") and x[3] == 0:
+            x = strip_wrap(x[1])
+        elif x[0] == "resok":
+            x = strip_wrap(x[1])
+        else:
+            break
     if x[0] != "call":
         return False
-    if x[2] in CB_RECV:
+    if x[2] in CB_DEQUEUE:
         return True
     b = ctx.prog.by_key.get(x[2])
-    return b is not None and any(b.path == w.path for w in ctx.A.blocking_recv_wrappers)
+    # any method of the consumer-side wrapper: what it hands out came out of the queue
+    return b is not None and (b.j.get("impl_adt") or "") == ctx.A.receiver_adt["path"]
 
 
 def s1_single_writer(ctx, rep):
@@ -588,40 +604,43 @@ def n2_guard(ctx, rep):
         rep.anchor_missing(R, "REDUCE / NOTIFY sites")
         return
     rk, rs = red[0]
-    # switches in the event graph on the flag returned by the chain function
     chain_fn = rs.body
+    true_edges = []
+    false_edges = []
     guards = []
     for k, n in G.nodes.items():
         t = n.body.blocks[n.bb]["term"]
         if t["k"] != "switch" or t["discr"]["k"] == "const":
             continue
         bp = ctx.prog.bp(n.body)
-        tt = P.I.in_context(k[0], n.body, bp.operand_term(t["discr"], n.bb, "term"))
-        # flag: first tuple component of the chain function's result = phi{true,false}
-        if tt[0] == "phi" and set(tt[1]) == {("const", "true", "bool"), ("const", "false", "bool")}:
-            raw = bp.operand_term(t["discr"], n.bb, "term")
-            if any(st[0] == "call" and ctx.prog.by_key.get(st[2]) is not None and ctx.prog.by_key[st[2]].path == chain_fn.path for st in subterms(raw)):
-                guards.append((k, n, t))
-    if not rep.exact(R, "branches on the chain's notify flag", len(guards), 1):
+        raw = bp.operand_term(t["discr"], n.bb, "term")
+        neg = False
+        if raw[0] == "unop" and raw[1] == "Not":
+            raw = raw[2]
+            neg = True
+        if not any(st[0] == "call" and ctx.prog.by_key.get(st[2]) is not None and ctx.prog.by_key[st[2]].path == chain_fn.path for st in subterms(raw)):
+            continue
+        tt = P.I.in_context(k[0], n.body, raw)
+        if not (tt[0] == "phi" and set(tt[1]) == {("const", "true", "bool"), ("const", "false", "bool")}):
+            continue
+        guards.append((k, n))
+        zero = [b for v, b in t["targets"] if str(v) == "0"]
+        nonzero = t["otherwise"]
+        fe = (k[0], n.body.path, nonzero if neg else (zero[0] if zero else nonzero))
+        te = (k[0], n.body.path, (zero[0] if zero else nonzero) if neg else nonzero)
+        false_edges.append((k, fe))
+        true_edges.append((k, te))
+    if not rep.floor(R, "branches on the chain's notify flag", len(guards), 1):
         return
-    k, n, t = guards[0]
-    false_t = [b for v, b in t["targets"] if str(v) == "0"]
-    true_t = t["otherwise"]
-    if not false_t:
-        rep.bad(R, "guard-shape", ctx.where(n.body, n.bb), "unexpected switch shape on the notify flag")
-        return
-    kf = (k[0], n.body.path, false_t[0])
-    kt = (k[0], n.body.path, true_t)
+    # world where the flag is false: every test of it takes its false edge
+    w_false = G.reach_corr(P.recv, avoid=(), after=True, forbid_edges=true_edges)
+    w_false_stop = G.reach_corr(P.recv, avoid=P.recv, after=True, forbid_edges=true_edges)
+    w_true = G.reach_corr(P.recv, avoid=P.recv, after=True, forbid_edges=false_edges)
     for nk, ns in nots:
-        from_false = nk in G.reach([kf], avoid=P.recv)
-        from_true = nk in G.reach([kt], avoid=P.recv)
-        only_via = G.every_path_hits(P.recv, [nk], {k})
-        rep.check(from_true and not from_false and only_via, R, "notify-iff-flag:" + short(ns.body.path), ctx.where(n.body, n.bb),
-                  "subscribers are reached only through the flag==true edge", "subscribers reachable with flag false (%s) / not reachable with flag true (%s) / bypassing the test (%s)" % (from_false, not from_true, not only_via))
-    # hooks of the notify phase and the metric are guarded likewise
+        rep.check(nk not in w_false_stop and nk in w_true, R, "notify-iff-flag:" + short(ns.body.path), ns.where,
+                  "subscribers are reached when the chain's flag is true and never when it is false", "subscribers reachable with flag false: %s; reachable with flag true: %s" % (nk in w_false_stop, nk in w_true))
     for nk, ns in P.ev.get("HOOK:before_dispatch", []):
-        from_false = nk in G.reach([kf], avoid=P.recv)
-        rep.check(not from_false, R, "before_dispatch-iff-flag:" + short(ns.body.path), ns.where, "before_dispatch hooks run only for notifying actions", "before_dispatch hooks run for Keep actions")
+        rep.check(nk not in w_false_stop, R, "before_dispatch-iff-flag:" + short(ns.body.path), ns.where, "before_dispatch hooks run only for notifying actions", "before_dispatch hooks run for Keep actions")
 
 
 def n3_payload(ctx, rep):
